@@ -266,7 +266,8 @@ pub fn run_case(args: &[&str]) -> String {
         Ok(g) => g,
         Err(c) => return format!("BUILD-PANIC:{c}"),
     };
-    let interner = cache.into_interner().unwrap();
+    let interner = crate::interners::Shared(std::sync::Arc::new(cache.into_interner().unwrap()));
+    let texts_of = crate::interners::Shared(std::sync::Arc::clone(&interner.0));
     let root: Node = if resolved { ResolvedNode::new_root_with_resolver(green, interner).syntax().clone() } else { SyntaxNode::new_root(green) };
     let mut regs: Vec<Option<Elem>> = vec![Some(NodeOrToken::Node(root.clone()))];
     let mut outs = Vec::new();
@@ -282,5 +283,16 @@ pub fn run_case(args: &[&str]) -> String {
     let held: Vec<String> = regs.iter().map(|r| r.as_ref().map(show_elem).unwrap_or_else(|| "-".into())).collect();
     // (debug builds assert the cached offset on every hit: a wrong cached offset panics here)
     let dump = catch(|| dump_ranges(&root)).unwrap_or_else(|c| format!("DUMP-PANIC:{c}"));
-    format!("{} ;; {} ;; {}", outs.join(" ; "), held.join(" "), dump)
+    // the resolved text of every node (C02: "resolving the text of any node yields exactly that slice of the whole text");
+    // only for trees of moderate size
+    let texts = catch(|| {
+        let nodes: Vec<_> = root.descendants().collect();
+        if root.descendants_with_tokens().count() > 60 {
+            return String::new();
+        }
+        let v: Vec<String> = nodes.iter().map(|n| crate::syn::show_text(&n.resolve_text(&texts_of).to_string())).collect();
+        format!(" texts {}", v.join("|"))
+    })
+    .unwrap_or_else(|c| format!(" texts TEXT-PANIC:{c}"));
+    format!("{} ;; {} ;; {}{}", outs.join(" ; "), held.join(" "), dump, texts)
 }
